@@ -266,20 +266,37 @@ impl DrawExecutor {
         }
     }*/
 
-    fn set_pixel(&mut self, x: i32, y: i32, line_color: u8) {
-        let offset = (y * self.get_resolution().width + x) as usize;
-        if offset >= self.screen.len() {
-            return;
+    /// Offset of a pixel in the screen buffer, None for positions outside of the screen.
+    fn pixel_offset(&self, x: i32, y: i32) -> Option<usize> {
+        let res = self.get_resolution();
+        if x < 0 || y < 0 || x >= res.width || y >= res.height {
+            return None;
         }
-        self.screen[offset] = line_color;
+        let offset = (y * res.width + x) as usize;
+        if offset < self.screen.len() {
+            Some(offset)
+        } else {
+            None
+        }
+    }
+
+    fn set_pixel(&mut self, x: i32, y: i32, line_color: u8) {
+        if let Some(offset) = self.pixel_offset(x, y) {
+            self.screen[offset] = line_color;
+        }
     }
 
     fn get_pixel(&mut self, x: i32, y: i32) -> u8 {
-        let offset = (y * self.get_resolution().width + x) as usize;
-        self.screen[offset]
+        match self.pixel_offset(x, y) {
+            Some(offset) => self.screen[offset],
+            None => 0,
+        }
     }
 
     fn fill_pixel(&mut self, x: i32, y: i32) {
+        if x < 0 || y < 0 {
+            return;
+        }
         let w = self.fill_pattern[(y as usize) % self.fill_pattern.len()];
         if w & (1 << (x as usize % 16)) != 0 {
             self.set_pixel(x, y, self.fill_color);
@@ -1205,10 +1222,15 @@ impl CommandExecutor for DrawExecutor {
                 if parameters.len() != 2 {
                     return Err(anyhow::anyhow!("SetResolution command requires 2 argument"));
                 }
+                let old_resolution = self.get_resolution();
                 match parameters[0] {
                     0 => self.terminal_resolution = TerminalResolution::Low,
                     1 => self.terminal_resolution = TerminalResolution::Medium,
                     _ => return Err(anyhow::anyhow!("SetResolution unknown/unsupported argument: {}", parameters[0])),
+                }
+                if old_resolution != self.get_resolution() {
+                    // the screen buffer has to have the size of the new resolution
+                    self.set_resolution(buf, caret);
                 }
                 match parameters[1] {
                     0 => { // no change
